@@ -164,6 +164,15 @@ def _regs(case):
     return {r['base']: r['data'] for r in case['regs0']}
 
 
+def _warm(case):
+    """Half of the corrupted cases (deterministically) are parsed by an element object that has
+    read the intact image before."""
+    import zlib
+    if 'warm' in case:
+        return bool(case['warm'])
+    return bool(case.get('corrupt')) and zlib.crc32(repr((case['content'], case.get('corrupt'))).encode()) % 2 == 0
+
+
 def drive_eeprom(case, rec, fm):
     from cflib.crazyflie.mem import I2CElement, MemoryElement
     c = case['content']
@@ -174,11 +183,17 @@ def drive_eeprom(case, rec, fm):
                   'radio_address': int.from_bytes(bytes(c['addr']), 'little')}
     rec.user('write', lambda: w.write_data(lambda *a: None))
     rec.pump()
+    fm.detach_all()
+    r = I2CElement(id=0, type=MemoryElement.TYPE_I2C, size=len(fm.regs[0]), mem_handler=fm)   # the parser
+    fm.attach(read=r.new_data, write=r.write_done)
+    if _warm(case):
+        # the same element object has already read the intact image once (as cfclient does when
+        # the user refreshes): nothing of that first result may survive into the next update
+        scratch = Recorder(fm)
+        scratch.user('update', lambda: r.update(lambda m: None))
+        scratch.pump()
     for (p, v) in case.get('corrupt', []):
         rec.corrupt(p, v)
-    fm.detach_all()
-    r = I2CElement(id=0, type=MemoryElement.TYPE_I2C, size=len(fm.regs[0]), mem_handler=fm)   # fresh parser
-    fm.attach(read=r.new_data, write=r.write_done)
     seen = []
     rec.user('update', lambda: r.update(lambda m: seen.append(m)))
     rec.pump()
@@ -203,11 +218,15 @@ def drive_ow(case, rec, fm):
         w.elements[NAMES[e['id']]] = bytes(e['str']).decode('ISO-8859-1')
     rec.user('write', lambda: w.write_data(lambda *a: None))
     rec.pump()
-    for (p, v) in case.get('corrupt', []):
-        rec.corrupt(p, v)
     fm.detach_all()
     r = OWElement(id=0, type=MemoryElement.TYPE_1W, size=len(fm.regs[0]), addr='0D00000000000001', mem_handler=fm)
     fm.attach(read=r.new_data, write=r.write_done)
+    if _warm(case):
+        scratch = Recorder(fm)
+        scratch.user('update', lambda: r.update(lambda m: None))
+        scratch.pump()
+    for (p, v) in case.get('corrupt', []):
+        rec.corrupt(p, v)
     seen = []
     rec.user('update', lambda: r.update(lambda m: seen.append(m)))
     rec.pump()
@@ -935,8 +954,15 @@ def cases_enumerated(tier, rng):
         for fade in range(2):
             for rot in range(8):
                 led.append([{'time': 1 + leds, 'r': 0, 'g': 0, 'b': 0, 'leds': leds, 'fade': fade, 'rotate': rot}])
+    # steps of duration 0: black with and without leds/fade/rotate (only the all-zero step is the
+    # terminator and cannot be stored), between ordinary steps
+    for leds, fade, rot in [(0, 0, 0), (3, 0, 0), (0, 1, 0), (0, 0, 5), (15, 1, 7)]:
+        z = {'time': 0, 'r': 0, 'g': 0, 'b': 0, 'leds': leds, 'fade': fade, 'rotate': rot}
+        led.append([z])
+        led.append([timing(), z, timing()])
+        led.append([z, dict(z, r=255), timing(t=0)])
     for k in range(100 if quick else 2000):
-        led.append([timing() for _ in range(rng.randrange(1, 12))])
+        led.append([timing(t=(0 if rng.random() < 0.15 else None)) for _ in range(rng.randrange(1, 12))])
     for ts in led:
         out.append({'fmt': 'led', 'content': {'timings': ts}, 'env': {'none': 0}, 'regs0': []})
     # ---- deck memory info: all 2^7 x 2^2 bit-field combinations x name lengths
